@@ -111,18 +111,18 @@ def PC.swap (c : PC) : PC :=
 
 /-- A small step in which the LEFT view acts or receives: labelled with what it sends and what is accepted
     into its object `j`. -/
-inductive CStepL (x j : Nat) : PC → PC → List Msg → List Bytes → Prop
-  | act (c : PC) (v : View) (ws : List Msg) (acc : List Bytes) (h : AStep x j c.a v ws acc) :
-      CStepL x j c { c with a := v, ab := if c.abOpen then c.ab ++ ws else c.ab } ws acc
+inductive CStepL (x j : Nat) : PC → PC → List Msg → List Bytes → List XL → Prop
+  | act (c : PC) (v : View) (ws : List Msg) (acc : List Bytes) (xl : List XL) (h : AStep x j c.a v ws acc xl) :
+      CStepL x j c { c with a := v, ab := if c.abOpen then c.ab ++ ws else c.ab } ws acc xl
   | dlv (c : PC) (m : Msg) (rest : List Msg) (h : c.ba = m :: rest) (hm : m ≠ .close) :
       CStepL x j c { c with ba := rest,
-                            a := { c.a with inbox := if deaf c.a then c.a.inbox else c.a.inbox ++ [.msg m] } } [] []
+                            a := { c.a with inbox := if deaf c.a then c.a.inbox else c.a.inbox ++ [.msg m] } } [] [] []
   | dlvClose (c : PC) (rest : List Msg) (h : c.ba = .close :: rest) :
       CStepL x j c { c with ba := [], baOpen := false,
-                            a := { c.a with inbox := if deaf c.a then c.a.inbox else c.a.inbox ++ [.msg .close, .eof] } } [] []
+                            a := { c.a with inbox := if deaf c.a then c.a.inbox else c.a.inbox ++ [.msg .close, .eof] } } [] [] []
   | cut (c : PC) (w : WsIn) (hw : isEnd w = true) :
       CStepL x j c { c with ba := [], baOpen := false,
-                            a := { c.a with inbox := if deaf c.a then c.a.inbox else c.a.inbox ++ [w] } } [] []
+                            a := { c.a with inbox := if deaf c.a then c.a.inbox else c.a.inbox ++ [w] } } [] [] []
 
 /-- The messages on their way from the left to the right endpoint, oldest first: delivered and not yet
     processed, on the wire, queued at the sender. -/
